@@ -18,6 +18,7 @@ Scenario (dict):
   app_kw     further keyword arguments of WebSocketApp (header, cookie, subprotocols); header_callable: True makes the
              header option a function that returns the static lines + "X-Seq: <number of the evaluation>"
   cb_style   "partial" | "object": the callbacks are functools.partial objects / instances with __call__ (no __name__)
+  fake_tls   the fake TLS layer is available although the URL is ws:// (a redirect to wss:// can be followed)
   trace      enableTrace(True) with a null handler for the duration of the scenario
   global_reconnect  websocket.setReconnect(x) instead of run_forever(reconnect=x)
   tls        wss:// with the record-buffering fake TLS socket
@@ -191,6 +192,10 @@ class AppNet:
                         else:
                             for b, a in sframe_items(item):
                                 self.sched.at(t, lambda s=sock, b=b, a=a: self.deliver(s, b, a))
+                elif sc.get("location"):
+                    # a redirect: the client follows it within the same connection attempt
+                    self.sched.ev("dial", cid=cid, outcome="redirected")
+                    sock.feed(b"HTTP/1.1 %d Moved\r\nLocation: %s\r\n\r\n" % (status, sc["location"].encode()))
                 else:
                     self.sched.ev("dial", cid=cid, outcome="rejected")
                     sock.feed(b"HTTP/1.1 %d Nope\r\n\r\n" % status)
@@ -314,7 +319,7 @@ def run_app(sc, schedule=None, seed=None, line_preempt=None):
     import websocket
     from websocket._abnf import ABNF
     sched = schedworld.Sched(schedule=schedule, seed=seed, max_steps=sc.get("max_steps", 60000))
-    net = AppNet(sched, [dict(c) for c in sc["conns"]], tls=bool(sc.get("tls")))
+    net = AppNet(sched, [dict(c) for c in sc["conns"]], tls=bool(sc.get("tls") or sc.get("fake_tls")))
     net.send_delay = (sc.get("send_delay_ms") or 0) / 1000.0
     undo = schedworld.install(sched, net)
     counts = {}
